@@ -111,6 +111,19 @@ TEXTS = {
                 "of sub_ontology is diffed against the crate.",
         "design_ref": "DESIGN.md §4 C14", "note": NOTE_COMMON, "technique": TECH,
     },
+    "C17": {
+        "text": "Theorems (Properties/C17.v, about the Gallina transcription): the Combinations iterator state machine yields, for every fuel and "
+                "every state, exactly the remaining live pairs in lexicographic order, hence Combinations::new over n live sets yields every "
+                "unordered pair exactly once; closest_clusters returns an entry of the distance matrix such that no entry is strictly "
+                "closer (for any comparison with transitive 'not less than'); an accepted leaf order is a permutation. PARTIAL: the loop "
+                "invariant (n-1 merges, binary tree, index n+k, update rules) is not yet a theorem about the model; it is decided per run by "
+                "spec_C17, which replays the crate's reported merges against a reference state (both nodes live, no live pair closer, reported "
+                "distance, sizes, method-specific update, one cluster of size n at the end, initial callback pairs each once), and by the "
+                "bit-exact diff of the transcription against the crate for the four methods.",
+        "design_ref": "DESIGN.md §4 C17",
+        "note": NOTE_COMMON + "HashMap iteration order is unspecified: on a tie the crate may merge another minimal pair than the model; such runs are decided by the replay only.",
+        "technique": TECH,
+    },
     "C18": {
         "text": "Theorems (Properties/C18.v, 16 statements): (a) the reference report the check compares the crate's report with is, for ALL "
                 "pairs of observations, exactly: added/removed = set differences of term / record ids; a term (record) present in both is "
